@@ -113,6 +113,8 @@ Broken(e) ==
             \cup (IF e.threads # e.threads0 THEN {"threads_left_behind"} ELSE {})
             \cup (IF e.growth * 2 > e.n /\ e.n >= 500 THEN {"mapped_memory_grows_with_thread_count"} ELSE {})
             \cup (IF e.stacks # 0 THEN {"stack_mappings_left_behind"} ELSE {})
+            \* quiet race batches: joins that returned None or a wrong value / invisible effect
+            \cup (IF e.badjoin > 0 THEN {"join_wrong_value"} ELSE {})
       [] OTHER -> {}
 
 Apply(e) ==
